@@ -20,7 +20,7 @@ def enum_leaves(bits=ENUM_BITS):
         out.append(enum_with_max((1 << b) - 1))  # upper edge of width b
         if b > 1:
             m = 1 << (b - 1)  # lower edge of width b; names sort in the opposite order of the values
-            out.append(("en", (("y0", 0), ("a%d" % m, m))))
+            out.append(("en", (("a%d" % m, m), ("y0", 0))))  # and the maximum is declared FIRST
         else:
             out.append(enum_with_max(0))  # single enumerator 0: still 1 bit
     return out
